@@ -72,15 +72,6 @@ Definition op_cat (t : ttype) := match t with TAMPERSAND => true | _ => false en
 Definition op_add (t : ttype) := match t with TPLUS | TMINUS => true | _ => false end.
 Definition op_mul (t : ttype) := match t with TSTAR | TSLASH | TDIV | TMOD => true | _ => false end.
 
-Definition psc_type_of_word (w : str) : option dkind :=
-  if str_eqb w (str_of_string "INTEGER") then Some KInt
-  else if str_eqb w (str_of_string "REAL") then Some KReal
-  else if str_eqb w (str_of_string "BOOLEAN") then Some KBool
-  else if str_eqb w (str_of_string "CHAR") then Some KChar
-  else if str_eqb w (str_of_string "STRING") then Some KStr
-  else if str_eqb w (str_of_string "DATE") then Some KDate
-  else None.
-
 (* literal constructors that can throw at parse time *)
 Definition int_literal_ok (t : token) : bool := digits_to_z (tval t) <=? int64_max.
 Definition real_literal_ok (t : token) : bool := match stod_literal (tval t) with Some _ => true | None => false end.
